@@ -26,6 +26,18 @@ theorem suspended_iff {s : SuspendP.St} (h : SuspendP.Reachable s) :
     (0 < s.sh.logical) ↔ (0 < s.sh.c ∨ s.sh.sbit = true) :=
   SuspendP.suspended_iff h
 
+/-- **F23 as found** (`fix:` c6cf305): a property setter (`dispatch_set_target_queue` / `dispatch_queue_set_width` on an active
+    queue) gave its temporary suspension back with a bare subtraction on `dq_state`; from the reachable state "inline count 0,
+    32 in the side counter" that leaves 64 suspensions too many. Since the repair the give-back is the `resume` step of the model. -/
+theorem F23_as_found : ∃ s, SuspendP.Reachable s ∧ s.sh.logical = 32 ∧
+    (SuspendP.rawGiveBack s.sh).c + (SuspendP.rawGiveBack s.sh).side = (SuspendP.rawGiveBack s.sh).logical + 64 :=
+  SuspendP.F23_as_found
+
+/-- **F23 repaired**: the same history with the suspension given back by `resume` leaves exactly the 31 still outstanding -/
+theorem F23_fixed : SuspendP.runT 1 {} .idle (SuspendP.f23Ops ++ [.resume, .resume, .resume, .resume]) =
+    some ({ c := 31, sbit := false, side := 0, logical := 31 }, .idle) :=
+  SuspendP.F23_fixed
+
 /-- **a queue created inactive runs nothing until its activation has completed, and then exactly while client
     suspends outnumber client resumes** -/
 theorem inactive_blocked_iff {s : ActP.St} (h : ActP.Reachable s) :
